@@ -137,7 +137,6 @@ Definition ref_nameref_raw : list nbr := [
     mkFs "" "" "Ingress" "metadata/annotations/ingress.kubernetes.io\/auth-secret" false;
     mkFs "" "" "Ingress" "metadata/annotations/nginx.ingress.kubernetes.io\/auth-secret" false;
     mkFs "" "" "Ingress" "metadata/annotations/nginx.ingress.kubernetes.io\/auth-tls-secret" false;
-    mkFs "" "" "Ingress" "spec/tls/secretName" false;
     mkFs "" "" "ServiceAccount" "imagePullSecrets/name" false;
     mkFs "" "" "StorageClass" "parameters/secretName" false;
     mkFs "" "" "StorageClass" "parameters/adminSecretName" false;
